@@ -773,3 +773,129 @@ theorem firstRows_congr {a b : Store} (h : SpecEq a b) (ha : ∀ d, SortedLe (gr
   intro r r' hrr hr
   simp only [Bool.and_eq_true] at hr ⊢
   exact ⟨hp r r' hrr hr.1, vis_down asof r r' hrr hr.2⟩
+
+/-! ### re-merging a version that is visible in the store -/
+
+theorem sorted_split {q} (hq : Down q) (Z : Store) (hs : SortedLe Z) :
+    Z.filter q ++ Z.filter (fun r => !q r) = Z := by
+  induction Z with
+  | nil => rfl
+  | cons z Z ih =>
+    by_cases hz : q z = true
+    · simp only [List.filter_cons, hz, if_true, Bool.not_true, Bool.false_eq_true, if_false, List.cons_append]
+      rw [ih hs.tail]
+    · simp only [Bool.not_eq_true] at hz
+      have h1 := filter_nil_of_sorted hq hs hz
+      have h2 : Z.filter (fun r => !q r) = Z := by
+        rw [List.filter_eq_self]
+        intro r hr
+        have := List.filter_eq_nil_iff.mp h1 r hr
+        simpa using this
+      simp [List.filter_cons, hz, h1, h2]
+
+/-- stable sort of a sorted column followed by rows of one stamp `s`: the new rows go after everything
+    stamped `≤ s` -/
+theorem sortStamp_append_const (c n : Store) (s : Int) (hc : SortedLe c) (hn : ∀ r ∈ n, r.stamp = s) :
+    sortStamp (c ++ n) = c.filter (fun r => decide (r.stamp ≤ s)) ++ n ++ c.filter (fun r => !decide (r.stamp ≤ s)) := by
+  have hq := down_le s
+  have h := (sorted_split hq _ (sortStamp_sorted (c ++ n))).symm
+  have n1 : n.filter (fun r => decide (r.stamp ≤ s)) = n := by
+    rw [List.filter_eq_self]; intro r hr; simp [hn r hr]
+  have n2 : n.filter (fun r => !decide (r.stamp ≤ s)) = [] := by
+    rw [List.filter_eq_nil_iff]; intro r hr; simp [hn r hr]
+  rw [sortStamp_filter, sortStamp_filter, List.filter_append, List.filter_append, n1, n2, List.append_nil] at h
+  have s1 : SortedLe (c.filter (fun r => decide (r.stamp ≤ s)) ++ n) := by
+    refine List.pairwise_append.mpr ⟨hc.sublist List.filter_sublist, ?_, ?_⟩
+    · exact List.pairwise_of_forall_mem_list (by intro a ha b hb; rw [hn a ha, hn b hb]; omega)
+    · intro a ha b hb
+      have := (List.mem_filter.mp ha).2
+      simp only [decide_eq_true_eq] at this
+      rw [hn b hb]; exact this
+  rw [sortStamp_of_sorted s1, sortStamp_of_sorted (hc.sublist List.filter_sublist)] at h
+  exact h
+
+theorem accVal_noop (y : Option Int) (n : Store) (h : ∀ r ∈ n, r.val = Option.none ∨ r.val = y) :
+    accVal (some y) n = some y := by
+  induction n with
+  | nil => rfl
+  | cons r n ih =>
+    rw [accVal_cons, Option.getD_some]
+    have : r.val.or y = y := by
+      rcases h r (by simp) with h | h <;> rw [h]
+      · rfl
+      · cases y <;> rfl
+    rw [this]
+    exact ih (fun r' hr' => h r' (by simp [hr']))
+
+theorem accVal_ne_nil (X : Store) (h : X ≠ []) : accVal Option.none X = some (lastVal X) := by
+  rw [lastVal_eq_getD]
+  cases hX : accVal Option.none X with
+  | none => exact absurd (accVal_eq_none.mp hX) h
+  | some a => rfl
+
+/-- column level: appending rows stamped `s` whose values are NaN or the value visible as of `s`
+    changes no as-of cut -/
+theorem remerge_col {p} (hp : Down p) (c n : Store) (s : Int) (hc : SortedLe c) (hn : ∀ r ∈ n, r.stamp = s)
+    (hne : n ≠ [] → c.filter (fun r => decide (r.stamp ≤ s)) ≠ [])
+    (hv : ∀ r ∈ n, r.val = Option.none ∨ r.val = lastVal (c.filter (fun r => decide (r.stamp ≤ s)))) :
+    accVal Option.none ((sortStamp (c ++ n)).filter p) = accVal Option.none (c.filter p) := by
+  rw [sortStamp_append_const c n s hc hn]
+  conv => rhs; rw [← sorted_split (down_le s) c hc]
+  simp only [List.filter_append, accVal_append]
+  congr 1
+  by_cases hn0 : n = []
+  · subst hn0; rfl
+  · obtain ⟨r0, hr0⟩ := List.exists_mem_of_ne_nil n hn0
+    by_cases hps : p r0 = true
+    · have n1 : n.filter p = n := by
+        rw [List.filter_eq_self]; intro r hr; rw [hp.congr (r' := r0) (by rw [hn r hr, hn r0 hr0])]; exact hps
+      have c1 : (c.filter (fun r => decide (r.stamp ≤ s))).filter p = c.filter (fun r => decide (r.stamp ≤ s)) := by
+        rw [List.filter_eq_self]; intro r hr
+        have := (List.mem_filter.mp hr).2
+        simp only [decide_eq_true_eq] at this
+        exact hp r0 r (by rw [hn r0 hr0]; exact this) hps
+      rw [n1, c1, accVal_ne_nil _ (hne hn0)]
+      exact accVal_noop _ _ hv
+    · have n1 : n.filter p = [] := by
+        rw [List.filter_eq_nil_iff]; intro r hr; rw [hp.congr (r' := r0) (by rw [hn r hr, hn r0 hr0])]; exact hps
+      rw [n1]; rfl
+
+theorem mem_specRows {rows : Store} {asof : Option Int} {d : Int} {y : Option Int} (h : (d, y) ∈ specRows rows asof) :
+    (group d rows).filter (vis asof) ≠ [] ∧ y = lastVal ((group d rows).filter (vis asof)) := by
+  simp only [specRows, List.mem_map, Prod.mk.injEq] at h
+  obtain ⟨d', hd', rfl, rfl⟩ := h
+  refine ⟨?_, rfl⟩
+  rw [← group_filter, group_ne_nil]
+  exact mem_dates.mp hd'
+
+/-- store level: re-merging a version whose values are NaN or the values visible as of its stamp -/
+theorem remerge_specEq (st : Store) (hg : Good st) (w : Version)
+    (hvis : ∀ p ∈ w.ts, ∃ y, (p.1, y) ∈ biRead st (some w.stamp) (-1) ∧ (p.2 = Option.none ∨ p.2 = y)) :
+    SpecEq (mergeFrames [st, Bi w.ts w.stamp]) st := by
+  refine (mergeFrames_specEq _ _).trans ?_
+  intro d p hp
+  rw [group_sortStamp, group_append]
+  have hmem : ∀ r ∈ group d (Bi w.ts w.stamp), ∃ q ∈ w.ts, q.1 = d ∧ r.val = q.2 ∧ r.stamp = w.stamp := by
+    intro r hr
+    obtain ⟨h1, h2⟩ := mem_group.mp hr
+    simp only [Bi, List.mem_map] at h1
+    obtain ⟨q, hq, rfl⟩ := h1
+    exact ⟨q, hq, h2, rfl, rfl⟩
+  have key : ∀ r ∈ group d (Bi w.ts w.stamp),
+      (group d st).filter (fun r => decide (r.stamp ≤ w.stamp)) ≠ [] ∧
+      (r.val = Option.none ∨ r.val = lastVal ((group d st).filter (fun r => decide (r.stamp ≤ w.stamp)))) := by
+    intro r hr
+    obtain ⟨q, hq, hqd, hrv, _⟩ := hmem r hr
+    obtain ⟨y, hy, hor⟩ := hvis q hq
+    rw [biRead_last st hg, hqd] at hy
+    obtain ⟨h1, h2⟩ := mem_specRows hy
+    refine ⟨h1, ?_⟩
+    rw [hrv]
+    rcases hor with h | h
+    · exact Or.inl h
+    · exact Or.inr (h.trans h2)
+  apply remerge_col hp _ _ w.stamp (hg d).1.le (fun r hr => (hmem r hr).choose_spec.2.2.2)
+  · intro hne
+    obtain ⟨r0, hr0⟩ := List.exists_mem_of_ne_nil _ hne
+    exact (key r0 hr0).1
+  · intro r hr; exact (key r hr).2
